@@ -118,7 +118,7 @@ pub fn fired_kinds(plan: &Plan, r: &RunResult) -> Vec<String> {
             Item::WChunk { fd, .. } => r.events.iter().any(|e| e.kind == 'W' && e.fd == *fd && e.act == "chunk"),
             Item::RChunk { .. } => r.events.iter().any(|e| e.kind == 'R' && e.act == "chunk" && e.ret > 0),
             Item::Hint { .. } => r.events.iter().any(|e| e.kind == 'S' && e.act == "hint"),
-            Item::FType { .. } => r.events.iter().any(|e| e.kind == 'S' && e.act == "ftype"),
+            Item::FType { .. } => r.events.iter().any(|e| e.kind == 'S' && (e.act == "ftype" || e.act == "isatty")),
             Item::NbFifo { .. } => r.events.iter().any(|e| e.kind == 'R' && (e.act == "nbeof" || e.act == "nbagain")),
             Item::Eof { .. } | Item::Flip { .. } => r.events.iter().any(|e| e.kind == 'R'),
             Item::Kill { .. } => r.events.iter().any(|e| e.kind == 'K'),
@@ -182,7 +182,7 @@ pub fn invisible_plan(rng: &mut Rng, ref_run: &RunResult) -> Plan {
                 p.items.push(Item::Hint { size: h });
                 if rng.chance(1, 3) {
                     // the script arrives through a pipe: FIFO / character device, size 0, not seekable
-                    let kind = 1 + rng.below(2) as u8;
+                    let kind = 1 + rng.below(3) as u8;
                     p.items.push(Item::FType { kind });
                     if kind == 1 && rng.chance(1, 2) {
                         // a writer that is late or pauses: invisible through a blocking descriptor
